@@ -22,6 +22,8 @@ import (
 
 	"github.com/crewjam/saml"
 	"github.com/crewjam/saml/samlidp"
+
+	"golang.org/x/crypto/bcrypt"
 )
 
 // C19: the bundled IdP server against spec/IdpServer.tla.
@@ -273,6 +275,7 @@ func c19Acs(e string) string {
 	}
 	return "https://sp-" + e + ".example.com/saml/acs"
 }
+
 // c19Long is longer than the 72 bytes bcrypt can hash; c19Pw("L2") agrees with it on exactly
 // those 72 bytes and differs afterwards, so it must never authenticate anybody.
 const c19Long = "long-passphrase-0123456789-abcdefghijklmnopqrstuvwxyz-ABCDEFGHIJKLMNOPQRSTUVWXYZ-tail-of-the-real-one"
@@ -284,7 +287,22 @@ func c19Pw(p string) string {
 	case "L2":
 		return c19Long[:72] + "-another-tail-entirely"
 	}
-	return map[string]string{"p1": "correct-horse-1", "p2": "battery-staple-2", "e": ""}[p]
+	return map[string]string{"p1": "correct-horse-1", "p2": "battery-staple-2", "e": "", "intruder": c19IntruderPw}[p]
+}
+
+// An update of an EXISTING user that carries no password keeps the stored credential ("HashedPassword
+// retains its stored value"), whatever else the body holds: such updates carry the hash of a password
+// that never was the user's, and that password must not open a session afterwards.
+const c19IntruderPw = "never-this-users-password"
+
+var (
+	c19IntruderOnce sync.Once
+	c19IntruderH    []byte
+)
+
+func c19IntruderHash() []byte {
+	c19IntruderOnce.Do(func() { c19IntruderH, _ = bcrypt.GenerateFromPassword([]byte(c19IntruderPw), bcrypt.MinCost) })
+	return c19IntruderH
 }
 func c19SampleN() int {
 	n, err := strconv.Atoi(os.Getenv("C19_SAMPLE"))
@@ -360,6 +378,8 @@ func (e *c19Env) request(a c19Act) (httpReq, bool) {
 		m := map[string]any{"name": a.U, "email": c19Email(a.U, a.Ver), "common_name": fmt.Sprintf("%s v%d", a.U, a.Ver), "groups": []string{"staff", fmt.Sprintf("grp-v%d", a.Ver)}}
 		if a.Pw != "keep" {
 			m["password"] = c19Pw(a.Pw)
+		} else if _, exists := e.store.clone()["/users/"+a.U]; exists {
+			m["hashed_password"] = c19IntruderHash() // ignored: the stored credential stays
 		}
 		b, _ := json.Marshal(m)
 		return httpReq{Method: "PUT", URL: u("/users/" + a.U), Body: string(b)}, true
@@ -960,6 +980,14 @@ func TestC19(t *testing.T) {
 								map[bool]string{true: "been deleted", false: "another password"}[ed.Act.N == "DeleteUser"]), replay(map[string]any{"probe": pr.Reply}))
 							return
 						}
+					}
+				}
+				// ... and an update that carried no password has given the user no new one
+				if real.Reply == ed.Reply && ed.Act.N == "PutUser" && ed.Act.Pw == "keep" && ed.From.Users[ed.Act.U].Pw != "absent" {
+					penv := c19Restore(&c19Snap{data: env.store.clone(), slot: env.snap.slot, ticks: env.snap.ticks})
+					if pr := penv.do(c19Act{N: "Login", U: ed.Act.U, Pw: "intruder"}, 0, ""); pr.SetCookie != "" || pr.Reply.Kind == "json" {
+						rep.Violation(key+":credential-from-body", fmt.Sprintf("after this update without a password (answered %d, as the reference model does) user %s's current password is still %q, yet a password that was never set for the user - its hash travelled in the update's hashed_password field - opens a session", real.Reply.Status, ed.Act.U, ed.From.Users[ed.Act.U].Pw), replay(map[string]any{"probe": pr.Reply}))
+						return
 					}
 				}
 				// conformance with the model's prediction (drift only)
